@@ -509,6 +509,105 @@ fn scenario_perturbation(out: &mut CaseOut, rng: &mut Rng, tier: &str) {
     out.sample = Some(json!({"family": "perturbation", "ctx": ctx, "history_ops": events.len()}));
 }
 
+
+/// Readers look up quiet keys that sort *after* everything a writer keeps inserting into the same
+/// (large) memtable: every reader traversal passes the region where new nodes are being linked.
+/// No rotation happens, so a wrong answer can only come from the memtable itself.
+fn scenario_memtable_churn(out: &mut CaseOut, rng: &mut Rng, tier: &str) {
+    let d = director();
+    d.reset(rng.next_u64());
+    let cfg = Config { memtable: 4 * 1024 * 1024, file: 2 * 1024 * 1024, block: 4096, reuse: true };
+    let (db, _fs) = match open_db(out, &cfg) {
+        Some(x) => x,
+        None => return,
+    };
+    let rec = Arc::new(Recorder::new());
+    let victims: Vec<Vec<u8>> = (0..4).map(|i| format!("zz-victim{i}").into_bytes()).collect();
+    let mut counter = 0u64;
+    for v in &victims {
+        let val = unique_value(0, &mut counter, rng, 30);
+        let c = rec.call();
+        let r = db.put(WriteOptions::default(), v.clone(), val.clone());
+        let t = rec.ret();
+        if r.is_ok() {
+            rec.write(0, v, Some(val), c, t, "victim write");
+        }
+    }
+    let n_writers = rng.range(1, 3) as u32;
+    let n_readers = rng.range(2, 5) as u32;
+    let inserts: u64 = if tier == "quick" { 4000 } else { 12000 };
+    let stop = Arc::new(std::sync::atomic::AtomicBool::new(false));
+    let mut writers = vec![];
+    for w in 1..=n_writers {
+        let db = Arc::clone(&db);
+        writers.push(std::thread::Builder::new().name(format!("c05-inserter-{w}")).spawn(move || {
+            set_role(w);
+            for i in 0..inserts {
+                let _g = watch::enter("put(filler)");
+                let _ = db.put(WriteOptions::default(), format!("a{w}-{i:07}").into_bytes(), vec![b'f'; 16]);
+            }
+            drop(db);
+        }).unwrap());
+    }
+    let mut readers = vec![];
+    for r in 0..n_readers {
+        let (db, rec, victims, stop) = (Arc::clone(&db), Arc::clone(&rec), victims.clone(), Arc::clone(&stop));
+        let mut trng = rng.fork("reader");
+        readers.push(std::thread::Builder::new().name(format!("c05-reader-{r}")).spawn(move || {
+            set_role(20 + r);
+            let mut reads = 0u64;
+            // per-key sub-histories must stay below 64 operations: at most 12 recorded reads per
+            // reader and key; unrecorded reads are still judged directly (the key is never rewritten)
+            let mut lost = 0u64;
+            while !stop.load(std::sync::atomic::Ordering::Relaxed) {
+                let k = trng.pick(&victims).clone();
+                let _g = watch::enter("get(victim)");
+                let c = rec.call();
+                let res = db.get(ReadOptions { fill_cache: false, snapshot: None }, &k);
+                let t = rec.ret();
+                reads += 1;
+                if let Err(RainDBError::KeyNotFound) = res {
+                    lost += 1;
+                    if lost <= 2 {
+                        rec.read(20 + r, &k, None, c, t, "victim read");
+                    }
+                } else if reads <= 8 {
+                    if let Ok(v) = res {
+                        rec.read(20 + r, &k, Some(v), c, t, "victim read");
+                    }
+                }
+            }
+            drop(db);
+            (reads, lost)
+        }).unwrap());
+    }
+    for w in writers {
+        let _ = w.join();
+    }
+    stop.store(true, std::sync::atomic::Ordering::Relaxed);
+    let mut reads = 0;
+    let mut lost = 0;
+    for r in readers {
+        if let Ok((a, b)) = r.join() {
+            reads += a;
+            lost += b;
+        }
+    }
+    final_reads(&db, &rec, &victims);
+    let events = rec.take();
+    let rotations = d.note_count("mem.rotate");
+    let ctx = json!({"scenario": "memtable churn: quiet keys read while smaller keys are inserted into the same memtable", "writers": n_writers,
+        "readers": n_readers, "inserts_per_writer": inserts, "victim_reads": reads, "victim_reads_that_returned_KeyNotFound": lost, "rotations": rotations});
+    judge_history(out, &events, &ctx, "C05", "memtable-churn");
+    out.add("churn_victim_reads", reads);
+    out.add("churn_lost_reads", lost);
+    if reads > 1000 {
+        out.nontrivial(format!("memtable-churn/w{n_writers}/r{n_readers}"));
+    }
+    close_db(out, db);
+    out.sample = Some(json!({"family": "memtable-churn", "ctx": ctx}));
+}
+
 pub fn run_case(tier: &str, seed: u64, idx: u64) -> CaseOut {
     let mut out = CaseOut::new();
     let mut rng = Rng::new(mix(&[seed, idx], "c05"));
@@ -517,6 +616,7 @@ pub fn run_case(tier: &str, seed: u64, idx: u64) -> CaseOut {
         0 | 8 => scenario_reader_across_flush(&mut out, &mut rng, idx / 8),
         4 | 12 => scenario_timed_park(&mut out, &mut rng, idx / 4, tier),
         2 => scenario_group_commit(&mut out, &mut rng),
+        10 => scenario_memtable_churn(&mut out, &mut rng, tier),
         _ => scenario_perturbation(&mut out, &mut rng, tier),
     }
     super::c09::judge_bg_panics(&mut out, "C05/aux");
